@@ -150,6 +150,10 @@ def check(fn, name, dom, leaves, facts0, off, rep):
                     continue
                 want_final = sp_['final']
                 if isinstance(want_final, tuple) and want_final[0] == 'strlen':
+                    # a path on which the string argument is a null pointer is outside what the property talks about (a C string is a
+                    # valid pointer); how the library treats it - crash, or like "" - is its own business
+                    if any(isinstance(c_, alg.Cond) and str(c_.a) == '&' + want_final[1] and c_.rel() == '==' and c_.b == 0 for c_ in lf.pc):
+                        continue
                     # the length appended is strlen of the string argument
                     lens = [n_ for n_, a_ in getattr(dom, 'strlen_of', {}).items() if isinstance(a_, Ptr) and a_.base == want_final[1] and sp.expand(a_.off) == 0]
                     if len(lens) != 1:
